@@ -1556,6 +1556,16 @@ template <typename Key, typename Value, class INode>
   UNODB_DETAIL_ASSERT(is_node_min_size);
 
   if constexpr (std::is_same_v<INode, olc_inode_4<Key, Value>>) {
+    // The remaining child replaces this node in the parent. If it is an inode,
+    // leave_last_child extends its key prefix in place, so it must be
+    // write-locked as well. Take its read lock before any write lock: no
+    // thread may wait while holding a write lock.
+    const auto sibling{inode.get_child(child_i == 0 ? 1 : 0)};
+    if (UNODB_DETAIL_UNLIKELY(!node_critical_section.check())) return {};
+    auto sibling_critical_section = node_ptr_lock(sibling).try_read_lock();
+    if (UNODB_DETAIL_UNLIKELY(sibling_critical_section.must_restart()))
+      return {};
+
     const optimistic_lock::write_guard parent_guard{
         std::move(parent_critical_section)};
     if (UNODB_DETAIL_UNLIKELY(parent_guard.must_restart())) return {};
@@ -1566,6 +1576,10 @@ template <typename Key, typename Value, class INode>
     optimistic_lock::write_guard child_guard{
         std::move(*child_critical_section)};
     if (UNODB_DETAIL_UNLIKELY(child_guard.must_restart())) return {};
+
+    const optimistic_lock::write_guard sibling_guard{
+        std::move(sibling_critical_section)};
+    if (UNODB_DETAIL_UNLIKELY(sibling_guard.must_restart())) return {};
 
     auto current_node{olc_art_policy<Key, Value>::make_db_inode_reclaimable_ptr(
         &inode, db_instance)};
